@@ -4,6 +4,7 @@ Grammar-based ex scripts and vi key streams run against the ASan/UBSan build.  O
 exit status 0, no sanitizer report, the quit trailer is reached within the CPU limit.
 """
 import os
+import re
 
 from hypothesis import strategies as st
 
@@ -118,6 +119,11 @@ def run_case(env, c):
     if r.timeout:
         # bounded-time clause: re-run once with a 6x budget; still running => hang
         r2 = runner.run_editor(env.paths["vi"], argv, stdin, d, rows=c["rows"], cols=c["cols"], cpu=cpu2, wall=4 * cpu2, want_stats=False)
+        if r2.timeout and c["mode"] == "vi" and re.search(r":[^\n:]*!(?![^\n]*</dev/null)[^\n]*\b(sed|tr|sort|rev|cat|head|wc)\b", c["script"]):
+            # a ':' prompt left open by one token followed by a '!' operator token: together they are the ex command ":!cmd", whose
+            # command reads the editor's own standard input - the rest of the key stream including the quit trailer - and the
+            # editor then sits at end of input.  The harness starved the editor; nothing is judged.
+            return Outcome(True, False, cl + ["shell_command_ate_the_key_stream_inconclusive"], inconclusive=True)
         if r2.timeout:
             # F22: a nullable alternation under an unbounded quantifier is explored 2^NDEPT ways
             pat = c.get("f22_pattern")
